@@ -372,6 +372,34 @@ func exec(c px.Context, op string, args []sx.Sexp) core.Result {
 			return core.Fail("-", "serjson-differs", buf.String())
 		}
 		return core.Result{Out: "-", Pred: "ok", NonTrivial: true}
+	case "serpb":
+		// end to end (implementation only): the real serializer into the protobuf consumer, then
+		// ConsumePBData into the real deserializer
+		v := valOf(args[0])
+		if hasBin(args[0]) {
+			return core.Result{Out: "-", Pred: "n/a"}
+		}
+		w := types.WrapValues([]px.Value{v, v, types.WrapString("rep"), v, types.WrapString("rep")})
+		var back px.Value
+		if err := safely(func() {
+			pc := proto.NewProtoConsumer()
+			serialization.NewSerializer(c, px.EmptyMap).Convert(w, pc)
+			fc := serialization.NewDeserializer(c, px.EmptyMap)
+			proto.ConsumePBData(pc.Value(), fc)
+			back = fc.Value()
+		}); err != nil {
+			if containsReserved(args[0]) {
+				return core.Fail("-", "pref-key", "reserved key in user hash: "+fmt.Sprint(err))
+			}
+			return core.Fail("-", "serpb-panic", fmt.Sprint(err))
+		}
+		if back == nil || !back.Equals(w, nil) || valStr(back) != valStr(w) {
+			if containsReserved(args[0]) {
+				return core.Fail("-", "pref-key", "reserved key in user hash changes the value on the way back")
+			}
+			return core.Fail("-", "serpb-differs", valStr(back))
+		}
+		return core.Result{Out: "-", Pred: "ok", NonTrivial: true}
 	case "pbev":
 		e := evOf(args[0])
 		pc := proto.NewProtoConsumer()
@@ -635,7 +663,54 @@ func randVal(r *rand.Rand, depth int, bin bool) sx.Sexp {
 	return sx.T("h", xs...)
 }
 
+// chain builds containers nested `depth` deep; every level has a sibling before and after the nested child, so a
+// lost frame or state at any depth shows
+func chain(r *rand.Rand, depth int) *ev {
+	if depth == 0 {
+		return scalarEv(r)
+	}
+	inner := chain(r, depth-1)
+	if r.Intn(2) == 0 {
+		return &ev{kind: "a", kids: []*ev{scalarEv(r), inner, scalarEv(r)}}
+	}
+	return &ev{kind: "h", kids: []*ev{{kind: "s", s: "k"}, scalarEv(r), {kind: "s", s: "n"}, inner, {kind: "s", s: "z"}, scalarEv(r)}}
+}
+
+func chainVal(e *ev) sx.Sexp {
+	switch e.kind {
+	case "a":
+		xs := []sx.Sexp{}
+		for _, k := range e.kids {
+			xs = append(xs, chainVal(k))
+		}
+		return sx.T("a", xs...)
+	case "h":
+		xs := []sx.Sexp{}
+		for i := 0; i+1 < len(e.kids); i += 2 {
+			xs = append(xs, sx.L(chainVal(e.kids[i]), chainVal(e.kids[i+1])))
+		}
+		return sx.T("h", xs...)
+	}
+	return e.sexp()
+}
+
 func gen(g *core.G) {
+	// deep nesting: depth 1..12 (quick) / 1..40 (thorough), several shapes per depth
+	maxDepth := 12
+	if g.Thorough() {
+		maxDepth = 40
+	}
+	for d := 1; d <= maxDepth; d++ {
+		for k := 0; k < 6; k++ {
+			e := chain(g.Rng, d)
+			g.Emit("json " + e.sexp().String())
+			g.Emit("pbev " + e.sexp().String())
+			v := chainVal(e).String()
+			g.Emit("pb " + v)
+			g.Emit("@serjson " + v)
+			g.Emit("@serpb " + v)
+		}
+	}
 	// exhaustive small universe: every well-formed event tree with ≤ 4 (quick) / ≤ 5 (thorough) nodes
 	n := 4
 	if g.Thorough() {
@@ -657,6 +732,7 @@ func gen(g *core.G) {
 		v := randVal(g.Rng, 1+g.Rng.Intn(4), i%10 == 0).String()
 		g.Emit("pb " + v)
 		g.Emit("@serjson " + v)
+		g.Emit("@serpb " + v)
 	}
 	// malformed stream (outside the property's quantifier; model and implementation must still agree)
 	for i := 0; i < 200*g.Scale; i++ {
